@@ -34,7 +34,7 @@ def _gen_side_objects(rng, tname, cols, others, want):
     return idxs, uqs, fks
 
 
-def gen_pair(rng, big=False, with_schema=False, c06_class=False, doubled=False):
+def gen_pair(rng, big=False, with_schema=False, c06_class=False, doubled=False, table_opts=False):
     """returns {"schemas": [...], "conn": [tbl...], "meta": [tbl...]} where a tbl is
     {schema,name,cols:[{name,ty,nullable}],idxs:[{name,unique,cols}],uqs:[{name,cols}],fks:[{name,col,ref,ondelete}]}"""
     ntab = rng.randint(1, 5 if big else 4)
@@ -125,6 +125,9 @@ def gen_pair(rng, big=False, with_schema=False, c06_class=False, doubled=False):
                 muq.append({"name": None, "cols": mc})
         conn_t = {"schema": s, "name": n, "cols": ccols, "idxs": cidx, "uqs": cuq, "fks": cfk}
         meta_t = {"schema": s, "name": n, "cols": mcols, "idxs": midx, "uqs": muq, "fks": mfk}
+        if table_opts and rng.random() < 0.4:
+            # SQLite table option (same on both sides: autogenerate does not compare it)
+            conn_t["without_rowid"] = meta_t["without_rowid"] = True
         if pres in ("both", "conn"):
             conn.append(conn_t)
         if pres in ("both", "meta"):
@@ -239,7 +242,8 @@ def build_metadata(tables):
         for f in t["fks"]:
             ref = "%s.%s.id" % (t["schema"], f["ref"]) if t["schema"] else "%s.id" % f["ref"]
             args.append(sa.ForeignKeyConstraint([f["col"]], [ref], name=f["name"], ondelete=f["ondelete"]))
-        tb = sa.Table(t["name"], md, *args, schema=t["schema"])
+        tkw = {"sqlite_with_rowid": False} if t.get("without_rowid") else {}
+        tb = sa.Table(t["name"], md, *args, schema=t["schema"], **tkw)
         for i in t["idxs"]:
             sa.Index(i["name"], *[tb.c[c] for c in i["cols"]], unique=i["unique"])
     return md
@@ -296,6 +300,16 @@ def col_differ(pair):
             y = cc.get(x["name"])
             if y and (y["ty"], y["nullable"]) != (x["ty"], x["nullable"]):
                 out.append({"schema": m["schema"], "table": m["name"], "col": x["name"]})
+    return out
+
+
+def table_options(conn, schemas):
+    """reflected table options (SQLite: sqlite_with_rowid) of every table, by (schema, name)"""
+    insp = sa_inspect(conn)
+    out = {}
+    for s in schemas:
+        for tn in insp.get_table_names(schema=s):
+            out["%s.%s" % (s or "", tn)] = {k: v for k, v in sorted(insp.get_table_options(tn, schema=s).items())}
     return out
 
 
